@@ -35,6 +35,16 @@ pub(super) fn has_null_key(keys: &[DataValue]) -> bool {
     keys.iter().any(|v| v.is_null())
 }
 
+/// Join keys are compared by value, as `=` compares them: an integer key of any width is widened
+/// to 64 bits, so that an INT key equals (and hashes and orders like) a BIGINT key of the same value.
+pub(super) fn join_key(value: DataValue) -> DataValue {
+    match value {
+        DataValue::Int16(v) => DataValue::Int64(v as i64),
+        DataValue::Int32(v) => DataValue::Int64(v as i64),
+        v => v,
+    }
+}
+
 impl<const T: JoinType> HashJoinExecutor<T> {
     #[try_stream(boxed, ok = DataChunk, error = ExecutorError)]
     pub async fn execute(self, left: BoxedExecutor, right: BoxedExecutor) {
@@ -50,7 +60,7 @@ impl<const T: JoinType> HashJoinExecutor<T> {
             let chunk = chunk?;
             let keys_chunk = Evaluator::new(&self.left_keys).eval_list(&chunk)?;
             for (row, keys) in chunk.rows().zip(keys_chunk.rows()) {
-                let keys: JoinKeys = keys.values().collect();
+                let keys: JoinKeys = keys.values().map(join_key).collect();
                 // A key containing NULL never equals any key (SQL `=` is UNKNOWN on NULL).
                 // Such left rows can not match; they are kept only for the outer joins
                 // that must still emit them padded with NULLs.
@@ -71,7 +81,7 @@ impl<const T: JoinType> HashJoinExecutor<T> {
             let chunk = chunk?;
             let keys_chunk = Evaluator::new(&self.right_keys).eval_list(&chunk)?;
             for (right_row, keys) in chunk.rows().zip(keys_chunk.rows()) {
-                let keys: JoinKeys = keys.values().collect();
+                let keys: JoinKeys = keys.values().map(join_key).collect();
                 // a probe row with a NULL in its key is unmatched by definition
                 let left_rows = if has_null_key(&keys) {
                     None
@@ -139,7 +149,7 @@ impl HashSemiJoinExecutor {
             let chunk = chunk?;
             let keys_chunk = Evaluator::new(&self.right_keys).eval_list(&chunk)?;
             for row in keys_chunk.rows() {
-                let keys: JoinKeys = row.values().collect();
+                let keys: JoinKeys = row.values().map(join_key).collect();
                 if !has_null_key(&keys) {
                     key_set.insert(keys);
                 }
@@ -154,7 +164,7 @@ impl HashSemiJoinExecutor {
             let exists = keys_chunk
                 .rows()
                 .map(|key| {
-                    let keys: JoinKeys = key.values().collect();
+                    let keys: JoinKeys = key.values().map(join_key).collect();
                     // NULL keys never match: semi drops the row, anti keeps it
                     (!has_null_key(&keys) && key_set.contains(&keys)) ^ self.anti
                 })
@@ -184,7 +194,7 @@ impl HashSemiJoinExecutor2 {
             let chunk = chunk?;
             let keys_chunk = Evaluator::new(&self.right_keys).eval_list(&chunk)?;
             for (key, row) in keys_chunk.rows().zip(chunk.rows()) {
-                let keys: JoinKeys = key.values().collect();
+                let keys: JoinKeys = key.values().map(join_key).collect();
                 if has_null_key(&keys) {
                     continue;
                 }
@@ -207,7 +217,7 @@ impl HashSemiJoinExecutor2 {
             let keys_chunk = Evaluator::new(&self.left_keys).eval_list(&chunk)?;
             let mut exists = Vec::with_capacity(chunk.cardinality());
             for (key, lrow) in keys_chunk.rows().zip(chunk.rows()) {
-                let keys: JoinKeys = key.values().collect();
+                let keys: JoinKeys = key.values().map(join_key).collect();
                 let rchunk = if has_null_key(&keys) {
                     None
                 } else {
